@@ -62,6 +62,9 @@ def gen_matrix(rng, n, m, miss_frac, special):
             sgn = rng.choice((1.0, -1.0))
             for i in range(n):
                 X[i][j] = sgn * (1.0000005e8 + 2.0 * j + rng.uniform(0.0, 3.0))
+    if special == "const_last":      # the LAST column (or the only one) has no spread
+        for i in range(n):
+            X[i][m - 1] = offs[m - 1]
     if special == "band":            # level scaling with a column mean between the two guards
         j = rng.randrange(m)
         col = [X[i][j] for i in range(n)]
@@ -133,6 +136,8 @@ def run(ck, rng, tier):
             special, ty = "symmetric", (0, 1, 3, 4)[c - 8]
         elif c < 15:
             special, ty = "above_code", (4, 4, 1)[c - 12]
+        elif c < 19:
+            special, ty = "const_last", (1, 3, 4, 2)[c - 15]
         miss = rng.choice((0.0, 0.0, 0.1, 0.2)) if special not in ("band", "above_code") else 0.0
         if special == "miss_first":
             miss = max(miss, 0.1)
